@@ -65,3 +65,32 @@ package crypto
 //@   tags C10
 //@   safety C06 C10
 //@   ensures @iff [C10] result <==> sc.ser(sc.of(e.Key)) == hashe4(padd(smul(sc.of(s.Key), pt.G), smul(sneg(sc.of(e.Key)), pk.pt(*A))), padd(smul(sc.of(s.Key), pk.pt(*B_)), smul(sneg(sc.of(e.Key)), pk.pt(*C_))), pk.pt(*A), pk.pt(*C_))
+
+// ---- keysets (C09, C11)
+
+// m/0'/0'/index'
+//@ func DeriveKeysetPath
+//@   tags C09 C11
+//@   safety C06 C09
+//@   ensures @path [C09,C11] err == nil ==> r0 != nil && r0 == hd.derive(hd.derive(hd.derive(key, 2147483648), 2147483648), (2147483648 + index) % 4294967296)
+
+// NUT-02: "00" + first 14 hex characters of sha256(sorted concatenation of the
+// compressed public keys). The sorted concatenation through the map is a
+// bounded stand-in (bounded/keysetid); prefix and truncation are proved.
+//@ func DeriveKeysetId
+//@   tags C09 C11
+//@   safety C06 C11
+//@   assumes result == ksid(mapkeys(keyset), mapvals(keyset), heap("H.github.com/decred/dcrd/dcrec/secp256k1/v4.PublicKey"))
+//@   requires forall k :: (k in keyset) ==> keyset[k] != nil
+//@   ensures @shape [C11] exists x Bytes :: blen(x) == 32 && result == "00" + ssub(hexenc(x), 0, 14)
+//@   loop range(keyset) invariant 0 <= it && it <= n && i == it && len(pubkeys) == n && (forall j :: 0 <= j && j < it ==> pubkeys[j].pk != nil)
+//@   loop range(pubkeys) invariant (forall j :: 0 <= j && j < len(pubkeys) ==> pubkeys[j].pk != nil)
+
+// The 60 keys are the children H+0 .. H+59 of the keyset path, keyed by the
+// amounts 2^0 .. 2^59; everything is a function of (master, index).
+//@ func GenerateKeyset
+//@   tags C09 C11
+//@   safety C06 C09
+//@   ensures @fields [C09] err == nil ==> result != nil && result.DerivationPathIdx == index && result.InputFeePpk == inputFeePpk && result.Active == active && result.Unit == "sat" && result.Keys != nil
+//@   ensures @keys [C09] err == nil ==> (forall j :: 0 <= j && j < 60 ==> (pow2(j) in result.Keys) && result.Keys[pow2(j)].PrivateKey != nil && result.Keys[pow2(j)].PublicKey != nil && sc.of(result.Keys[pow2(j)].PrivateKey.Key) == hd.privsc(hd.derive(hd.derive(hd.derive(hd.derive(master, 2147483648), 2147483648), (2147483648 + index) % 4294967296), 2147483648 + j)) && pk.pt(*result.Keys[pow2(j)].PublicKey) == smul(sc.of(result.Keys[pow2(j)].PrivateKey.Key), pt.G))
+//@   loop 1 invariant (forall k :: (k in pks) ==> pks[k] != nil) && 0 <= i && i <= 60 && keysetPath == hd.derive(hd.derive(hd.derive(master, 2147483648), 2147483648), (2147483648 + index) % 4294967296) && (forall j :: 0 <= j && j < i ==> (pow2(j) in keys) && keys[pow2(j)].PrivateKey != nil && keys[pow2(j)].PublicKey != nil && sc.of(keys[pow2(j)].PrivateKey.Key) == hd.privsc(hd.derive(keysetPath, 2147483648 + j)) && pk.pt(*keys[pow2(j)].PublicKey) == smul(sc.of(keys[pow2(j)].PrivateKey.Key), pt.G))
